@@ -75,6 +75,26 @@ def derived_local_capture(man: dict) -> str | None:
     return None
 
 
+def typed_reference_wrapper(doc: dict) -> bool:
+    """C10's finding as a document-level trigger: some schema has an explicit type that admits null beside a single-element
+    allOf / oneOf / anyOf around a reference (the null is lost, so a null value reaches the referenced class's from_dict)."""
+    found = [False]
+
+    def walk(x):
+        if isinstance(x, dict):
+            t = x.get("type")
+            if ((isinstance(t, str) and x.get("nullable")) or (isinstance(t, list) and "null" in t)) and any(isinstance(x.get(kw), list) and len(x[kw]) == 1 and isinstance(x[kw][0], dict) and "$ref" in x[kw][0] for kw in ("allOf", "oneOf", "anyOf")):
+                found[0] = True
+            for v in x.values():
+                walk(v)
+        elif isinstance(x, list):
+            for v in x:
+                walk(v)
+    walk(doc.get("components") or {})
+    walk(doc.get("paths") or {})
+    return found[0]
+
+
 def endpoint_local_capture(man: dict) -> bool:
     """The parameter flavour of C18's finding: an array parameter x and a sibling whose python name is x_item /
     x_item_data / json_x (locals the endpoint template derives from x)."""
